@@ -147,8 +147,13 @@ pub fn judge(kind: MsgKind, fields: &[Field]) -> Judgement {
             if auth.is_empty() && host.is_empty() {
                 return MustReject("neither :authority nor Host");
             }
-            if auth.iter().any(|a| a.is_empty()) || (auth.is_empty() && host.iter().any(|h| h.is_empty())) {
+            // (with several Host lines it is not stated which one is "the" authority: only when every one of them is empty
+            // is there no non-empty authority whichever is meant; some empty, some not is noted as unspecified below)
+            if auth.iter().any(|a| a.is_empty()) || (auth.is_empty() && host.iter().all(|h| h.is_empty())) {
                 return MustReject("authority present but empty");
+            }
+            if auth.is_empty() && host.iter().any(|h| h.is_empty()) {
+                note("an empty Host line among several");
             }
             if let (Some(a), Some(h)) = (auth.first(), host.first()) {
                 if auth.len() == 1 && host.len() == 1 && a != h {
